@@ -42,7 +42,13 @@ def classify(cond, BOARD_LOOP, MV):
     m = match(call('core::option::Option::<T>::is_none', call('board::Board::piece_on', V('b'), dst)), c)
     if m is not None:
         return 'not-capture'
-    if c[0] == 'call' and (c[1] == 'core::cmp::PartialEq::ne' or c[1].endswith('PartialEq>::ne') or c[1].endswith('PartialEq>::eq')):
+    if c[0] == 'call' and 'PartialEq' in c[1] and (c[1].endswith('::ne') or c[1].endswith('::eq')):
+        if len(c[2]) == 2 and all(a[0] == 'tuple' and a[1] and all(x[0] == 'call' and x[1] == 'board::Board::castle_rights' for x in a[1]) for a in c[2]) \
+                and len(c[2][0][1]) == len(c[2][1][1]):
+            # `(white, black)` before vs after: componentwise the same comparison
+            kinds = {classify(('call', c[1].replace('core::tuple::<impl core::cmp::PartialEq for (U, T)>', 'core::cmp::PartialEq'), (x, y), ()), BOARD_LOOP, MV)
+                     for x, y in zip(c[2][0][1], c[2][1][1])}
+            return 'rights-changed' if kinds == {'rights-changed'} else sorted(kinds - {'rights-changed'})[0]
         if all(a[0] == 'call' and a[1] == 'board::Board::castle_rights' for a in c[2]) and len(c[2]) == 2:
             # a change of rights compares the SAME side's rights on two boards: the colour arguments must denote one colour
             # (side_to_move of the board after a move is the opposite of the one before it: C02)
@@ -459,6 +465,10 @@ def run(ctx):
         if ok:
             ctx.ok('C11.R3', 'repetition: `return true` requires list[i] == last and list[j] == last with j < i < len-1 (two distinct earlier entries)',
                    where(body, st['line']))
+        elif any(c_['callee'] and c_['callee'].split('::')[-1] in ('any', 'all', 'find', 'position', 'filter', 'count', 'fold') and
+                 any(isinstance(a_, tuple) and a_ and a_[0] == 'closure' for a_ in c_['argvals'] or ()) for c_ in s.calls):
+            # part of the search is inside a closure handed to an iterator adaptor (`(0..i).any(|j| list[j] == last)`)
+            ctx.inconclusive('C11.R3', 'the repetition search uses an iterator adaptor with a closure: the equalities inside the closure are not analysed')
         else:
             ctx.violation('C11.R3', KEY + ':two-earlier', 'the repetition claim is not guarded by two equalities of the last entry with two distinct '
                           'earlier entries (equalities found: %d, index expressions: %s)' % (len(eqs), [sh(i, 60) for i in idxs]), where(body, st['line']))
